@@ -46,10 +46,13 @@ class HardCut(BaseException):
 
 
 class Env:
+    ARMED = [0]        # counted across the histories of a check (a history rarely has three injected failures of its own)
+
     def injected(self, msg):
-        """every third injected failure of a history is a BaseException that is not an Exception"""
+        """every third injected failure is a BaseException that is not an Exception"""
         self.armed += 1
-        return (HardCut if self.armed % 3 == 0 and not self.soft_only else Cut)(msg)
+        Env.ARMED[0] += 1
+        return (HardCut if Env.ARMED[0] % 3 == 0 and not self.soft_only else Cut)(msg)
 
     def __init__(self):
         self.armed = 0
@@ -473,6 +476,8 @@ def exec_request(b, snap, c0, stale, out, events, value, ok, cmd="exec"):
 
     def T(v):                      # the module's `term`, with the producers' contents spelled out
         return term(v, pv)
+    if ok and out is not None and out and not isinstance(value, (list, tuple)):
+        value = ["<run returned %r where a list of %d values was requested>" % (value, len(out))]
     world = " ".join("%d=%s@%d" % (i, T(v), t) for i, (v, t) in sorted(snap.items()) if t is not None)
     order, slots = [], []
     for k, e in enumerate(events):
